@@ -71,13 +71,14 @@ def vee (A : Mat α 3 3) : Vec α 3 :=
 def ad (a : Vec α 3) : Mat α 3 3 :=
   mat3 (nat 0) (-(a 2)) (a 1) (a 2) (nat 0) (-(a 0)) (nat 0) (nat 0) (nat 0)
 
+/-- `I + cos_2·ad − sin_3·ad·ad`; the last term is `(sin_3·ad)·ad` as the C++ parses it -/
 def dr_exp (a : Vec α 3) : Mat α 3 3 :=
   let th2 := a 2 * a 2
   let ad_a := ad a
   let c2 := Trig.cos_2 th2
   let s3 := Trig.sin_3 th2
-  let ad2 := memoM (mmul ad_a ad_a)
-  (.of (fun i j => (ident 3 i j + c2 * ad_a i j) - s3 * ad2 i j))
+  let sad2 := memoM (mmul (msmul s3 ad_a) ad_a)
+  (.of (fun i j => (ident 3 i j + c2 * ad_a i j) - sad2 i j))
 
 def drExpinvA (th th2 : α) : α :=
   if th2 < Scalar.eps2 then nat 1 / nat 12 + th2 / nat 720
@@ -88,8 +89,8 @@ def dr_expinv (a : Vec α 3) : Mat α 3 3 :=
   let th2 := th * th
   let A := drExpinvA th th2
   let ad_a := ad a
-  let ad2 := memoM (mmul ad_a ad_a)
-  (.of (fun i j => (ident 3 i j + ad_a i j / nat 2) + A * ad2 i j))
+  let Aad2 := memoM (mmul (msmul A ad_a) ad_a)
+  (.of (fun i j => (ident 3 i j + ad_a i j / nat 2) + Aad2 i j))
 
 /-- `(A, B, dA_dwz, dB_dwz)` of `d2r_exp` -/
 def d2rExpCoef (wz : α) : α × α × α × α :=
